@@ -1,9 +1,4 @@
 // ---- prelude for node.rs slices ---------------------------------------------------------------
 use std::net::SocketAddr;
-use vcoll::BTreeMap;
-impl vcoll::Havoc for ClusterMember {
-    fn havoc() -> Self {
-        panic!("vcoll: membership snapshots are concrete")
-    }
-}
+use std::collections::BTreeMap;
 // ---- end of prelude ---------------------------------------------------------------------------
